@@ -262,8 +262,9 @@ class CenterOfMassOriginModel(AutoSerialize):
 
             shifted_grid = (base_grid[None, ...] + shift_tensor) % size_tensor
 
-            grid_x_norm = 2 * shifted_grid[..., 1] / (W - 1) - 1
-            grid_y_norm = 2 * shifted_grid[..., 0] / (H - 1) - 1
+            # a detector dimension of length 1 has the single coordinate 0 (avoid 0 / 0)
+            grid_x_norm = 2 * shifted_grid[..., 1] / max(W - 1, 1) - 1
+            grid_y_norm = 2 * shifted_grid[..., 0] / max(H - 1, 1) - 1
             grid = torch.stack((grid_x_norm, grid_y_norm), dim=-1)
 
             shifted_tensor_3d[batch_idx] = F.grid_sample(
